@@ -1,0 +1,17 @@
+//go:build verif
+
+package refcount
+
+// VerifHook, when set, is called at every schedule point of this package:
+//
+//	site 0: top of RefCount.resolve, before it waits for its predecessor (obj: the nonce)
+//	site 1: RefCount.resolve after the resolver returned, before mtx is taken (obj: the nonce)
+//	site 2: the asynchronous path of released(), before mtx is taken (obj: the nonce)
+//	site 3: RefCount.removeRef, before mtx is taken (obj: the *Ref)
+var VerifHook func(site int, obj any)
+
+func verifPoint(site int, obj any) {
+	if h := VerifHook; h != nil {
+		h(site, obj)
+	}
+}
